@@ -285,10 +285,20 @@ Section Proofs.
     exists k, snd (aone vals i t flat) = skipn k flat /\ (k = 0 -> i < List.length vals).
   Proof.
     unfold augment_one.
-    repeat match goal with
-    | |- context [if ?c then _ else _] => destruct c
-    end;
-    try (exists 1; rewrite pop_fmt_snd; split; [destruct flat; reflexivity | discriminate]).
+    assert (PF : forall f, exists k, snd (pop_fmt f flat) = skipn k flat /\ (k = 0 -> i < List.length vals)).
+    { intros f. exists 1. rewrite pop_fmt_snd. split; [destruct flat; reflexivity | discriminate]. }
+    destruct (beq t (s2b "float32")); [apply PF|].
+    destruct (beq t (s2b "float64")); [apply PF|].
+    destruct (beq t (s2b "int") || beq t (s2b "int64")); [apply PF|].
+    destruct (beq t (s2b "int8")); [apply PF|].
+    destruct (beq t (s2b "int16")); [apply PF|].
+    destruct (beq t (s2b "int32")); [apply PF|].
+    destruct (beq t (s2b "uint") || beq t (s2b "uint8") || beq t (s2b "uint16") || beq t (s2b "uint32") || beq t (s2b "uint64"));
+      [apply PF|].
+    destruct (beq t (s2b "bool")); [apply PF|].
+    clear PF.
+    destruct (beq t (s2b "string")); [|destruct (has_pfx t "*" || beq t (s2b "func") || has_pfx t "map[" || has_pfx t "chan ");
+                                       [|destruct (has_pfx t "[]")]].
     - exists 2. destruct flat as [|a1 [|a2 flat]]; split; try reflexivity; discriminate.
     - exists 1. destruct flat as [|a1 flat]; split; try reflexivity; discriminate.
     - exists 3. destruct flat as [|a1 [|a2 [|a3 flat]]]; split; try reflexivity; discriminate.
